@@ -100,7 +100,10 @@ def analyse(rep, F, f, site):
             continue
         break
     conds = " ".join(sexp(c.get("cond")) for c in checks)
-    need = {"trajectory size": "size trajectory" in conds and "2" in conds, "degree <= size": "degree" in conds, "k_interp > 0": "k_interp" in conds}
+    pn = [p["name"] for p in f["params"]] + ["?", "?", "?"]
+    need = {"trajectory size": ("size %s" % pn[0]) in conds and "2" in conds, "degree <= size": pn[1] in conds, "k_interp > 0": pn[2] in conds}
+    global PRECONDITIONS
+    PRECONDITIONS = {pn[1]: 2, "(size %s)" % pn[0]: 3, pn[2]: 1}
     for what, ok in need.items():
         rep.obligation(ok, lambda what=what: C.Finding("C17", "R-MPT.args", "%s:%s" % (site, what), "argument check '%s' does not precede the index arithmetic" % what, f["file"], f["line"]))
     # (b) counted loops
